@@ -1,4 +1,4 @@
-import BobModel.Proofs.C06Deps1
+import BobModel.Proofs.C06Order11
 /-
 C06 — parallel builds are schedule independent and bounded.
 
@@ -208,11 +208,33 @@ def deps_first_goal : Prop :=
   ∀ (P : Project) (cfg : Cfg) (n : Nat) (r0 : Runners) (st : Sched.St), PathVid P → GoodRunners n r0 →
     Reach P cfg r0 st → depsFirst P st = true
 
+/-- **deps_first**, partial: proved for parallel builds (`hpar : cfg.par = true`, jobs > 1), for every project, job
+server mode and schedule.  Invariant `Sched.DepsInv` over `Reach`: along every continuation each operation that leads
+to the script of `s` (`lock s _ false`, `lockWait`, `underLock`, `run`, `runWait`) is either reached with all valid
+dependencies of `s` finished successfully, or is preceded by an operation that guarantees this when it completes (the
+`_cook` of the dependencies, the spawn of their cook tasks, `yieldRel` / `gather` on these tasks: `Sched.chk`); a cook
+task that ended without an exception has left a successful end of a script of its workspace in the history; `wasRun`
+says "run" only for workspaces with a successful end; `cookTasks` maps a key to a cook task of that workspace.
+What is missing for `deps_first_goal`: the sequential scheduler of `-j1` (`cfg.par = false`: `spawnSeq` / `waitOnly` /
+`results`), which needs "the tasks collected in `made` are done" as a second kind of obligation in `Sched.chk`. -/
+theorem deps_first_partial (P : Project) (cfg : Cfg) (n : Nat) (r0 : Runners) (st : Sched.St) (hpv : PathVid P)
+    (hpar : cfg.par = true) (hr : GoodRunners n r0) (h : Reach P cfg r0 st) : depsFirst P st = true :=
+  deps_first_par hpv hpar hr h
+
 /-- **once** (first half of once_and_exclusive): per workspace, starts and ends alternate and a workspace is
 started again only after a failed execution (possible when step objects with different sandboxes share it) -/
 def once_goal : Prop :=
   ∀ (P : Project) (cfg : Cfg) (n : Nat) (r0 : Runners) (st : Sched.St), PathVid P → GoodRunners n r0 →
     Reach P cfg r0 st → onceLegal P st = true
+
+/-- **once** holds for every project, configuration, job count and schedule.  Invariant (`Sched.OnceInv`, by
+induction over `Reach`): the history says "running" for a workspace iff a task is suspended in `runWait` there
+(inside the workspace lock); "ok" implies that `wasRun` records a real run or that the task that ran the script
+is about to record it, still inside the lock; a task that will start a script has checked under the lock that
+`wasRun` has no real run, and lock exclusivity (`LockInv`) keeps that true until it starts. -/
+theorem once : once_goal := by
+  intro P cfg n r0 st hpv hr h
+  exact once_all hpv hr h
 
 /-- **schedule_independent**: whenever a script ended successfully its workspace holds `value` = the result
 of the sequential dataflow, for every schedule (`hval`: the dataflow equation, stated locally; equal
@@ -223,6 +245,30 @@ def schedule_independent_goal : Prop :=
     (∀ s s', (P.info s).path = (P.info s').path → value s = value s') →
     GoodRunners n r0 → Reach P cfg r0 st →
     ∀ t s, Ev.fin t s true ∈ st.trace → st.diskAt (P.info s).path = value s
+
+/-- **schedule_independent**, partial: with the two hypotheses that the full statement lacks or that are not proved yet.
+`hrd` (`Sched.ReadsDeps`): what a script reads (`bidDeps`) is among the valid dependencies of its step (true of Bob's
+`getAllDepSteps`; without it the statement is false, see `schedule_independent_refuted` below).
+`hdf` (`Sched.DepsAtEnd` in every reachable configuration): the state form of deps_first - a task whose script is
+running has the scripts of all valid dependencies of its step finished successfully; this is `deps_first_goal`, which
+is proved for parallel builds only (`deps_first_partial`, see `schedule_independent_partial_par`).  The proof uses **once** (after a successful end a workspace is never started again, a failing
+script never overwrites a good result) and the per-workspace lock. -/
+theorem schedule_independent_partial (P : Project) (cfg : Cfg) (n : Nat) (r0 : Runners) (st : Sched.St)
+    (value : Nat → Nat) (hpv : PathVid P) (hval : ∀ s, value s = P.run s ((P.info s).bidDeps.map value))
+    (hpath : ∀ s s', (P.info s).path = (P.info s').path → value s = value s')
+    (hrd : ReadsDeps P) (hdf : ∀ st', Reach P cfg r0 st' → DepsAtEnd P st')
+    (hr : GoodRunners n r0) (h : Reach P cfg r0 st) :
+    ∀ t s, Ev.fin t s true ∈ st.trace → st.diskAt (P.info s).path = value s :=
+  ValInv.reach hpv hval hpath hrd hr hdf h
+
+/-- **schedule_independent**, partial, for parallel builds: only the hypothesis `hrd` that the statement lacks
+(`Sched.ReadsDeps`) and `hpar : cfg.par = true` (because deps_first is proved for parallel builds only). -/
+theorem schedule_independent_partial_par (P : Project) (cfg : Cfg) (n : Nat) (r0 : Runners) (st : Sched.St)
+    (value : Nat → Nat) (hpv : PathVid P) (hval : ∀ s, value s = P.run s ((P.info s).bidDeps.map value))
+    (hpath : ∀ s s', (P.info s).path = (P.info s').path → value s = value s')
+    (hrd : ReadsDeps P) (hpar : cfg.par = true) (hr : GoodRunners n r0) (h : Reach P cfg r0 st) :
+    ∀ t s, Ev.fin t s true ∈ st.trace → st.diskAt (P.info s).path = value s :=
+  ValInv.reach hpv hval hpath hrd hr (fun _ h' => depsAtEnd_par hpv hpar hr h') h
 
 /-- `d` is `s` or a valid step below it (dependencies of invalid steps are never cooked) -/
 inductive Below (P : Project) : Nat → Nat → Prop
@@ -253,5 +299,85 @@ def exCfg : Cfg := { par := true, keepGoing := false, co0 := true, targets := [3
 
 example : GoodRunners 2 (.job (JobSem.St.init false 2)) := GoodRunners.job false
 example : Reach exProject exCfg (.job (JobSem.St.init false 2)) (init exCfg (.job (JobSem.St.init false 2))) := Reach.init
+
+/-! non-vacuity of **once**: a two-step chain of checkout steps built to the end of the second script -/
+
+def exGood : Project :=
+  { steps := [⟨.checkout, 0, 0, none, true, [], []⟩, ⟨.checkout, 1, 11, none, true, [0], [0]⟩],
+    run := fun s ins => ins.sum + (if s = 1 then 5 else 7), junk := fun _ => 0 }
+
+def exCfg1 : Cfg := { par := true, keepGoing := false, co0 := false, targets := [1] }
+
+def exR2 : Runners := .bounded { value := 2, waiters := [] } 2
+
+/-- dispatcher; top task of 1; cook task of 1 asks for 0; cook task of 0 runs its script to the end and records it;
+cook task of 1 runs its script to the end -/
+def exGoodSchedule : List Choice :=
+  [.task 0, .task 1, .task 1, .task 1, .task 1, .task 1, .task 2, .task 2, .task 2, .task 2, .task 2,
+   .task 3, .task 3, .task 3, .task 3, .task 3, .task 3, .finish 3 true, .task 3, .task 3, .task 3, .task 3, .task 3,
+   .task 2, .task 2, .task 2, .task 2, .task 2, .task 2, .finish 2 true, .task 2]
+
+def exGoodSt : Sched.St := exec exGood exCfg1 exGoodSchedule (init exCfg1 exR2)
+
+theorem exGood_pathVid : PathVid exGood := by
+  intro s s' hv hp
+  rcases s with _ | _ | s <;> rcases s' with _ | _ | s' <;> simp_all [exGood, Project.info, List.getD, default]
+
+/-- a reachable configuration whose history has two script starts and two successful ends in two workspaces, for
+which `once` gives `onceLegal` -/
+example : Reach exGood exCfg1 exR2 exGoodSt ∧ Ev.start 3 0 ∈ exGoodSt.trace ∧ Ev.fin 3 0 true ∈ exGoodSt.trace ∧
+    Ev.start 2 1 ∈ exGoodSt.trace ∧ Ev.fin 2 1 true ∈ exGoodSt.trace ∧ onceLegal exGood exGoodSt = true :=
+  ⟨reach_exec Reach.init _, by decide +kernel, by decide +kernel, by decide +kernel, by decide +kernel,
+   once exGood exCfg1 2 exR2 exGoodSt exGood_pathVid GoodRunners.bounded (reach_exec Reach.init _)⟩
+
+/-! **schedule_independent** as stated is FALSE of the model: nothing in the statement ties what a script reads
+(`bidDeps`: valid arguments and tools) to what is cooked before it (`deps`).  Witness: step 1 reads the workspace
+of step 0 but does not depend on it; building 1 alone runs its script on the empty workspace 0.  (In Bob
+`getAllDepSteps()` contains the arguments and tools, so the witness is not a Bob project: the missing hypothesis
+is `∀ s d, d ∈ (P.info s).bidDeps → d ∈ (P.info s).deps ∧ (P.info d).valid`.) -/
+
+def exBad : Project :=
+  { steps := [⟨.checkout, 0, 0, none, true, [], []⟩, ⟨.checkout, 1, 11, none, true, [], [0]⟩],
+    run := fun s ins => ins.sum + (if s = 1 then 5 else 7), junk := fun _ => 0 }
+
+def exBadValue (s : Nat) : Nat := if s = 1 then 12 else 7
+
+/-- dispatcher; top task of 1; cook task of 1 runs the script of 1 to the end -/
+def exBadSchedule : List Choice :=
+  [.task 0, .task 1, .task 1, .task 1, .task 1, .task 1, .task 2, .task 2, .task 2, .task 2, .task 2, .task 2,
+   .finish 2 true, .task 2]
+
+def exBadSt : Sched.St := exec exBad exCfg1 exBadSchedule (init exCfg1 exR2)
+
+theorem exBad_pathVid : PathVid exBad := by
+  intro s s' hv hp
+  rcases s with _ | _ | s <;> rcases s' with _ | _ | s' <;> simp_all [exBad, Project.info, List.getD, default]
+
+theorem exBad_value (s : Nat) : exBadValue s = exBad.run s ((exBad.info s).bidDeps.map exBadValue) := by
+  rcases s with _ | _ | s <;> simp [exBadValue, exBad, Project.info, List.getD, default]
+
+theorem exBad_consistent (s s' : Nat) (h : (exBad.info s).path = (exBad.info s').path) : exBadValue s = exBadValue s' := by
+  rcases s with _ | _ | s <;> rcases s' with _ | _ | s' <;> simp_all [exBadValue, exBad, Project.info, List.getD, default]
+
+/-- non-vacuity of `deps_first_partial` and `schedule_independent_partial_par` on the chain `exGood` (step 1 reads
+and depends on step 0): the history has the start of 1 after the successful end of 0, and workspace 1 holds the
+sequential value 12 = 5 + 7 -/
+example : depsFirst exGood exGoodSt = true ∧ exGoodSt.diskAt (exGood.info 1).path = 12 := by
+  have hr : Reach exGood exCfg1 exR2 exGoodSt := reach_exec Reach.init _
+  refine ⟨deps_first_partial exGood exCfg1 2 exR2 exGoodSt exGood_pathVid rfl GoodRunners.bounded hr, ?_⟩
+  refine schedule_independent_partial_par exGood exCfg1 2 exR2 exGoodSt exBadValue exGood_pathVid ?_ ?_ ?_ rfl
+    GoodRunners.bounded hr 2 1 (by decide +kernel)
+  · intro s
+    rcases s with _ | _ | s <;> simp [exBadValue, exGood, Project.info, List.getD, default]
+  · intro s s' h
+    rcases s with _ | _ | s <;> rcases s' with _ | _ | s' <;> simp_all [exBadValue, exGood, Project.info, List.getD, default]
+  · intro s d hd
+    rcases s with _ | _ | s <;> simp_all [exGood, Project.info, List.getD, default]
+
+theorem schedule_independent_refuted : ¬ schedule_independent_goal := by
+  intro h
+  have h1 := h exBad exCfg1 2 exR2 exBadSt exBadValue exBad_pathVid exBad_value exBad_consistent GoodRunners.bounded
+    (reach_exec Reach.init _) 2 1 (by decide)
+  exact absurd h1 (by decide)
 
 end C06
